@@ -1,0 +1,11 @@
+// Copyright 2024 The go-python Authors.  All rights reserved.
+// Use of this source code is governed by a BSD-style
+// license that can be found in the LICENSE file.
+
+//go:build !verif
+
+package vm
+
+import "github.com/go-python/gpython/py"
+
+func verifInstr(frame *py.Frame, opcode OpCode, arg int32, pc int32) {}
